@@ -116,6 +116,21 @@ def run(rep, info, model, tier, seed):
         variants = [[c[j:j + 65536] for c in v for j in range(0, len(c), 65536)] for v in variants]
         groups.append(("deflate", [dict(z, steps=scen.steps_from_chunks([c for c in v if c])) for v in variants]))
         rep.count("stream_kind", "deflate")
+    # streams several receive buffers long: reads that fill the 64 KiB buffer exactly (right behind the handshake, and again),
+    # reads one byte short of it, the handshake alone or with the first frames behind it
+    for i in range(2 if tier == "quick" else 8):
+        hs = scen.HANDSHAKE
+        body = E(2, scen.rand_bytes(rnd, rnd.choice([70000, 65536 - 4, 131072]))) + E(1, ("x\u20ac" * rnd.choice([20000, 33000])).encode("utf-8")) + \
+            E(9, b"p") + E(2, scen.rand_bytes(rnd, 65536 * 2 + 5), fin=0) + E(0, b"tail") + E(1, b"end")
+        stream = hs + body
+        ks = scen.keys(rnd, 6)
+        full = lambda data, n=65536: [data[j:j + n] for j in range(0, len(data), n)]
+        variants = [full(stream), [hs] + full(body), [hs] + full(body, 65535), full(stream, 65535), [hs + body[:10]] + full(body[10:]),
+                    [hs] + full(body, 16384), [hs] + full(body[:65536 * 2]) + full(body[65536 * 2:], 1460)]
+        for _ in range(3):
+            variants.append([c[j:j + 65536] for c in scen.chunkings(rnd, stream, "random") for j in range(0, len(c), 65536)])
+        groups.append(("large", [make(hs, body, [c for c in v if c], {}, ks) for v in variants]))
+        rep.count("stream_kind", "large")
     # exhaustive cut sets of short frame sequences
     exh = []
     nshort = 10 if tier == "quick" else 24
